@@ -14,16 +14,35 @@ from pysym.harness import Case
 from pysym import regions
 
 
-def _hash_expr(rel, qual):
-    """the argument expression of the single `return hash(<expr>)` of a function"""
-    tree = ast.parse(env.read(rel))
-    f = regions.find_function(tree, qual)
-    for n in ast.walk(f):
-        if isinstance(n, ast.Call) and isinstance(n.func, ast.Name) and n.func.id == 'hash' and n.args:
-            e = ast.Expression(n.args[0])
-            ast.fix_missing_locations(e)
-            return compile(e, env.repo_path(rel), 'eval'), ast.unparse(f)
-    raise Unanchored(f'{rel}:{qual}: no hash() call')
+class _Rec:
+    def __init__(self):
+        self.calls = []
+
+    def __call__(self, x):
+        self.calls.append(x)
+        return len(self.calls)
+
+
+def _hashed_by(func, module, *args):
+    """run the whole REAL function (code object of the current tree) with the builtin `hash` bound to a recorder: returns the single hashed
+    value.  No statement of the body is addressed, so behaviour-preserving edits inside the function keep the obligation."""
+    func = getattr(func, 'fget', func)
+    func = getattr(func, '__wrapped__', func)
+    rec = _Rec()
+    f = types.FunctionType(func.__code__, {**vars(module), 'hash': rec}, func.__name__, func.__defaults__, func.__closure__)
+    f(*args)
+    if len(rec.calls) != 1:
+        raise Unanchored(f'{func.__qualname__}: expected exactly one hash() call for one atom / bond, saw {len(rec.calls)}')
+    return rec.calls[0]
+
+
+class _OneAtom:
+    """container stub for Fingerprints._atom_identifiers: one atom, reachable only through atoms() / _atoms"""
+    def __init__(self, a):
+        self._atoms = {1: a}
+
+    def atoms(self):
+        return iter(self._atoms.items())
 
 
 def _or0(x):
@@ -56,7 +75,6 @@ def cases():
     from contracts.query import sym_element_class
     out = []
     # Element.__hash__ : (isotope or 0, Z, charge, radical, hydrogens or 0, in ring)
-    code, text = _hash_expr('chython/periodictable/base/element.py', 'Element.__hash__')
     for iso in ('sym', None):
         for h in ('sym', None):
             dom = []
@@ -69,10 +87,9 @@ def cases():
             a._in_ring = sym_bool('ring')
             spec = [_or0(a._isotope), a._z.z, a._charge.z, a._is_radical.z, _or0(a._implicit_hydrogens), a._in_ring.z]
             out.append(Case(f'Element.__hash__/hashed-tuple==(isotope|0,Z,charge,radical,H|0,in_ring)[iso={iso},h={h}]',
-                            (lambda a=a: eval(code, vars(em), {'self': a})), dom, (lambda v, spec=spec: _tuple_eq(v, spec)), (), None,
+                            (lambda a=a: _hashed_by(Element.__hash__, em, a)), dom, (lambda v, spec=spec: _tuple_eq(v, spec)), (), None,
                             ('chython/periodictable/base/element.py', 'Element.__hash__')))
     # Fingerprints._atom_identifiers : (isotope or 0, Z, charge, radical) - no hydrogens, no ring mark, no atom number
-    code2, _ = _hash_expr('chython/algorithms/fingerprints/__init__.py', 'Fingerprints._atom_identifiers')
     for iso in ('sym', None):
         dom = []
         a = object.__new__(sym_element_class())
@@ -82,14 +99,13 @@ def cases():
         a._is_radical = sym_bool('rad')
         spec = [_or0(a._isotope), a._z.z, a._charge.z, a._is_radical.z]
         out.append(Case(f'Fingerprints._atom_identifiers/hashed-tuple==(isotope|0,Z,charge,radical)[iso={iso}]',
-                        (lambda a=a: eval(code2, vars(fm), {'atom': a, 'idx': 1})), dom, (lambda v, spec=spec: _tuple_eq(v, spec)), (), None,
+                        (lambda a=a: _hashed_by(fm.Fingerprints._atom_identifiers, fm, _OneAtom(a))), dom, (lambda v, spec=spec: _tuple_eq(v, spec)), (), None,
                         ('chython/algorithms/fingerprints/__init__.py', 'Fingerprints._atom_identifiers')))
     # Bond.__hash__ is the order; QueryBond.__hash__ (order tuple, ring flag); DynamicBond.__hash__ (order|0, p_order|0)
     dom = []
     b = object.__new__(Bond)
     b._order = sym_int('o', 1, 8, dom)
     out.append(Case('Bond.__hash__==order', (lambda: Bond.__hash__(b)), dom, lambda v: bv(v) == b._order.z, (), None, ('chython/containers/bonds.py', 'Bond.__hash__')))
-    code3, _ = _hash_expr('chython/containers/bonds.py', 'DynamicBond.__hash__')
     for o in ('sym', None):
         for p in ('sym', None):
             if o is None and p is None:
@@ -99,14 +115,13 @@ def cases():
             d._order = None if o is None else sym_int('o', 1, 8, dom)
             d._p_order = None if p is None else sym_int('p', 1, 8, dom)
             spec = [_or0(d._order), _or0(d._p_order)]
-            out.append(Case(f'DynamicBond.__hash__/hashed-tuple==(order|0,p_order|0)[{o},{p}]', (lambda d=d: eval(code3, vars(bm), {'self': d})), dom,
+            out.append(Case(f'DynamicBond.__hash__/hashed-tuple==(order|0,p_order|0)[{o},{p}]', (lambda d=d: _hashed_by(DynamicBond.__hash__, bm, d)), dom,
                             (lambda v, spec=spec: _tuple_eq(v, spec)), (), None, ('chython/containers/bonds.py', 'DynamicBond.__hash__')))
             # C15: a bond is dynamic exactly where the two sides differ
             out.append(Case(f'DynamicBond.is_dynamic<=>order!=p_order[{o},{p}]', (lambda d=d: d.is_dynamic), dom,
                             (lambda v, d=d: zbool(v) == (z3.BoolVal(True) if d._order is None or d._p_order is None else d._order.z != d._p_order.z)), (), None,
                             ('chython/containers/bonds.py', 'DynamicBond.is_dynamic')))
     # DynamicElement: hash tuple and is_dynamic
-    code4, _ = _hash_expr('chython/periodictable/base/dynamic.py', 'DynamicElement.__hash__')
     dcls = type('SymDyn', (DynamicElement,), {'__slots__': ('_z',), 'atomic_number': property(lambda s: 0 if s is None else s._z)})
     dcls.__abstractmethods__ = frozenset()
     for iso in ('sym', None):
@@ -117,7 +132,7 @@ def cases():
         d._charge, d._p_charge = sym_int('ch', -4, 4, dom), sym_int('pch', -4, 4, dom)
         d._is_radical, d._p_is_radical = sym_bool('rad'), sym_bool('prad')
         spec = [_or0(d._isotope), d._z.z, d._charge.z, d._p_charge.z, d._is_radical.z, d._p_is_radical.z]
-        out.append(Case(f'DynamicElement.__hash__/hashed-tuple[iso={iso}]', (lambda d=d: eval(code4, vars(dm), {'self': d})), dom,
+        out.append(Case(f'DynamicElement.__hash__/hashed-tuple[iso={iso}]', (lambda d=d: _hashed_by(DynamicElement.__hash__, dm, d)), dom,
                         (lambda v, spec=spec: _tuple_eq(v, spec)), (), None, ('chython/periodictable/base/dynamic.py', 'DynamicElement.__hash__')))
         out.append(Case(f'DynamicElement.is_dynamic<=>charge-or-radical-differs[iso={iso}]', (lambda d=d: d.is_dynamic), dom,
                         (lambda v, d=d: zbool(v) == z3.Or(d._charge.z != d._p_charge.z, d._is_radical.z != d._p_is_radical.z)), (), None,
